@@ -99,6 +99,7 @@ PROPS["C01"] = {
     "min_evals": {"quick": 20000, "thorough": 500000},
     "legs": [
         Leg("stream", "c01", "^TestStream$", checks=(3000, 100000), shards=(2, 16), tests=["stream"]),
+        Leg("sequence", "c01", "^TestSequence$", checks=(10000, 150000), shards=(2, 16), tests=["sequence"]),
         Leg("buffer", "c01", "^TestBuffer$", checks=(30000, 400000), shards=(2, 16), tests=["buffer"]),
         Leg("fuzz-buffer", "c01", "", engine="native-fuzz", fuzz="FuzzBuffer", fuzztime=150, tiers=("thorough",)),
     ],
